@@ -319,7 +319,9 @@ func NewWorld(r *Run, p *Profile) *World {
 	w.setupCodec()
 	dupLinksCanonicalised = w.LinkKeyBytes != nil
 	w.ShareOpts = r.Choose("share-load-options", 2) == 0
-	w.Big = r.Choose("big-world", 2) == 0 // bursts and wide forks (long and wide logs cost time at every later step)
+	// bursts and wide forks in half of the replica worlds and a quarter of the source worlds of the fetch engines
+	// (long and wide logs cost time at every later step, and every block of a load is a driver step)
+	w.Big = r.Choose("big-world", 4) < map[bool]int{false: 2, true: 1}[p.MemOnly]
 	w.LogConc = []uint{0, 0, 0, 1, 2, 5, math.MaxUint, 1 << 63}[r.Choose("log-concurrency", 8)]
 	if w.Codec == "pb" {
 		w.F.crash = false // the legacy codec cannot read back what it writes for v2 entries: in-memory exchange only
